@@ -73,9 +73,10 @@ def rand_variant(rng, ident, generics, allow_default=True, allow_disabled=True, 
 def default_variant(rng, ident, named=None):
     named = rng.random() < 0.4 if named is None else named
     ty = rng.choice(["String", "String", "boxstr"])
+    dis = rng.random() < 0.12          # default + disabled: the variant is removed, it must not become the catch-all
     if named:
-        return variant(ident, "named", [field(ty, rng.choice(FIELD_NAMES))], default=True)
-    return variant(ident, "tuple", [field(ty)], default=True)
+        return variant(ident, "named", [field(ty, rng.choice(FIELD_NAMES))], default=True, dis=dis)
+    return variant(ident, "tuple", [field(ty)], default=True, dis=dis)
 
 
 def sample_def(rng, did, nmax=8, perr=None, phf=False, fieldless=False, default_ok=True, styles=None):
@@ -139,6 +140,15 @@ def dictionary(start_id):
     add([variant("Life", "tuple", [field("str")]), variant("Unit")], generics="lt")
     # default named field
     add([variant("Known"), variant("Other", "named", [field("String", "f")], default=True)])
+    # a disabled default variant must not become the catch-all; a second, enabled default may follow it
+    add([variant("Known"), variant("Legacy", "tuple", [field("String")], default=True, dis=True)])
+    add([variant("Known"), variant("Legacy", "named", [field("String", "text")], default=True, dis=True), variant("Tail", ser=["t"])])
+    add([variant("Legacy", "tuple", [field("String")], default=True, dis=True), variant("Known"), variant("Other", "tuple", [field("String")], default=True)])
+    # a variant-level case-insensitivity override must not leak into the variants after it
+    add([variant("Before"), variant("Marked", aci=1), variant("After"), variant("Last", ser=["last"])])
+    add([variant("Before"), variant("Exact", aci=0), variant("After"), variant("Last", ser=["last"])], aci=True)
+    # to_string next to serialize: both are spellings
+    add([variant("Blue", "named", [field("u8", "hue")], ser=["b"], ts="blue"), variant("Red", ts="rouge"), variant("Cafe", ser=["caf\u00e9"], aci=1)])
     # empty enum, single variant
     add([])
     add([variant("Only")])
@@ -151,18 +161,19 @@ def dictionary(start_id):
 def exhaustive_small(start_id, rng, limit):
     """1..2 variants x kinds x spelling sources x flags: small shapes, complete up to `limit` (sampled beyond)"""
     sercfgs = [([], None), (["a"], None), (["ab", "a"], None), ([], "t"), (["a"], "T"), (["K"], None), (["A"], None)]
-    flags = ["", "dis", "def"]
+    flags = ["", "dis", "def", "disdef"]        # "disdef": a variant that is both default and disabled is simply disabled
     acis = [2, 1, 0]
     kinds = ["unit", "tuple1", "named1", "tuple2"]
     combos = list(itertools.product(sercfgs, flags, acis, kinds))
 
     def mk(ident, c):
         (ser, ts), fl, aci, kind = c
-        if fl == "def":
+        if fl in ("def", "disdef"):
             if kind in ("unit", "tuple2"):
                 return None
             return variant(ident, "tuple" if kind == "tuple1" else "named",
-                           [field("String", "" if kind == "tuple1" else "f")], ser=ser, ts=ts, default=True, aci=aci)
+                           [field("String", "" if kind == "tuple1" else "f")], ser=ser, ts=ts, default=True, aci=aci,
+                           dis=(fl == "disdef"))
         k, nf = {"unit": ("unit", 0), "tuple1": ("tuple", 1), "named1": ("named", 1), "tuple2": ("tuple", 2)}[kind]
         fs = [field(["u8", "String"][j], ["x", "val"][j] if k == "named" else "") for j in range(nf)]
         return variant(ident, k, fs, ser=ser, ts=ts, dis=(fl == "dis"), aci=aci)
